@@ -9,7 +9,12 @@ timer was armed for, and only while it is still the entry of `_pending_acks` (ca
 code = removal/replacement of that entry).
 
 What is an *input* (an oracle, quantified over in the theorems): the results of
-`random.shuffle` (probe order, delegate choice), the delivery time of every message, crash times.
+`random.shuffle` (probe order, delegate choice), the delivery time of every message, crash times,
+and the `Network.partition(group_a, group_b)` / `Partition.heal()` calls made on the network.
+
+The network (`components/network/network.py`) decides when it is handed a message (same instant
+as the send) whether to route it: a message whose (unordered) endpoint pair is blocked by a
+partition handle that has not been healed is dropped; messages already in flight are delivered.
 
 The failure detector is a parameter (`Detector D`): `hb` = `PhiAccrualDetector.heartbeat`,
 `avail` = `is_available`.  The executable driver instantiates it with the float evaluation
@@ -269,10 +274,22 @@ inductive Act
   | deliver (id now : Nat)
   | timeout (a x now : Nat) (shuf : List Nat)
   | crash (x now : Nat)
+  /-- `handle[h] = network.partition(ga, gb)` -/
+  | cut (h : Nat) (ga gb : List Nat) (now : Nat)
+  /-- `handle[h].heal()` -/
+  | heal (h now : Nat)
 deriving Repr
 
 def Act.time : Act → Nat
-  | .tick _ t _ | .deliver _ t | .timeout _ _ t _ | .crash _ t => t
+  | .tick _ t _ | .deliver _ t | .timeout _ _ t _ | .crash _ t | .cut _ _ _ t | .heal _ t => t
+
+/-- does a partition handle (its list of pairs) block the unordered pair `{a, b}` -/
+def pairIn (ps : List (Nat × Nat)) (a b : Nat) : Bool :=
+  ps.any fun p => (p.1 == a && p.2 == b) || (p.1 == b && p.2 == a)
+
+/-- the pairs of `partition(ga, gb)` -/
+def cutPairs (ga gb : List Nat) : List (Nat × Nat) :=
+  ga.flatMap fun a => gb.map fun b => (a, b)
 
 structure Sys (D : Type) where
   now : Nat := 0
@@ -280,6 +297,11 @@ structure Sys (D : Type) where
   crashed : List Bool := []
   soup : List Msg := []
   nextId : Nat := 0
+  /-- partition handles by number: the pairs each one blocks; `[]` = not created yet / healed.
+      A pair stays blocked while any handle holds it (the reference counts of `Network`). -/
+  cuts : List (List (Nat × Nat)) := []
+  /-- the messages of the last commit that the network refused to route -/
+  lost : List Msg := []
 
 section sys
 variable {D : Type} [Inhabited D] [Detector D]
@@ -288,15 +310,26 @@ def Sys.node (s : Sys D) (a : Nat) : Node D := lget default s.nodes a
 def Sys.isCrashed (s : Sys D) (a : Nat) : Bool := lget false s.crashed a
 def Sys.view (s : Sys D) (a x : Nat) : MState := (s.node a).view x
 
+/-- `Network.is_partitioned` -/
+def Sys.blocked (s : Sys D) (a b : Nat) : Bool := s.cuts.any fun ps => pairIn ps a b
+
+/-- the network is whole: no handle blocks anything -/
+def Sys.whole (s : Sys D) : Bool := s.cuts.all fun ps => ps.isEmpty
+
 /-- stamp outgoing messages with consecutive ids -/
 def stamp (a now : Nat) : Nat → List Out → List Msg
   | _, [] => []
   | k, o :: os => ⟨k, o.kind, a, o.dst, now, o.ifor, o.upds⟩ :: stamp a now (k + 1) os
 
+/-- what the network does with freshly sent messages: those across an active partition vanish -/
+def Sys.routed (s : Sys D) (ms : List Msg) : List Msg := ms.filter fun m => !s.blocked m.src m.dst
+def Sys.refused (s : Sys D) (ms : List Msg) : List Msg := ms.filter fun m => s.blocked m.src m.dst
+
 /-- install the result of a handler of node `a` -/
 def Sys.commit (s : Sys D) (a now : Nat) (r : Node D × List Out) (soup : List Msg) : Sys D :=
   { s with now := now, nodes := lset default s.nodes a r.1,
-           soup := soup ++ stamp a now s.nextId r.2, nextId := s.nextId + r.2.length }
+           soup := soup ++ s.routed (stamp a now s.nextId r.2),
+           lost := s.refused (stamp a now s.nextId r.2), nextId := s.nextId + r.2.length }
 
 def handleMsg (c : Cfg) (a now : Nat) (m : Msg) (nd : Node D) : Node D × List Out :=
   match m.kind with
@@ -324,6 +357,8 @@ def step (c : Cfg) (s : Sys D) : Act → Sys D
         | .ind => s.commit a now (onIndTimeout c a now x shuf (s.node a)) s.soup
         | .susp => s.commit a now (onSuspTimeout x (s.node a), []) s.soup
   | .crash x now => { s with now := now, crashed := lset false s.crashed x true }
+  | .cut h ga gb now => { s with now := now, cuts := lset [] s.cuts h (cutPairs ga gb) }
+  | .heal h now => { s with now := now, cuts := lset [] s.cuts h [] }
 
 def run (c : Cfg) (s : Sys D) : List Act → Sys D
   | [] => s
